@@ -654,8 +654,8 @@ class BloomFilterOnDisk(BloomFilter):
         Note:
             Only exported if the filename is not the original filename"""
         self.__update()
-        if file and Path(file) != self._filepath:
-            copyfile(str(self._filepath), str(file))
+        if file and resolve_path(file) != self._filepath:
+            copyfile(str(self._filepath), str(resolve_path(file)))
         # otherwise, nothing to do!
 
     def _load(self, file: Union[str, Path], hash_function: Union[HashFuncT, None] = None):  # type: ignore
